@@ -264,12 +264,19 @@ func VH_Reassembler() {
 	if allowNil {
 		nops = 3
 	}
+	forcePush := vParam("forcepush", 0)
 	for i := 0; i < k; i++ {
-		op := vChoose("op", nops)
+		op := vOpPush
+		if i >= forcePush {
+			op = vChoose("op", nops)
+		}
 		switch op {
 		case vOpPush:
 			seq := vU32("seq")
 			typ := vU16("typ")
+			if vParam("plain", 0) != 0 {
+				vAssume(typ == uint16(auparse.AUDIT_SYSCALL)) // a record that neither completes nor bypasses buffering
+			}
 			if window {
 				vAssume(seq-m.base < 1<<24)
 			}
